@@ -534,6 +534,15 @@ def rule_prev(ck):
                    sink="prev:datetime")
 
 
+def rule_holders(ck, rid="C05.R9"):
+    """the objects a scheduler receives carry each value under its own name (shared engine: rules.same_name_constructor)"""
+    from ..rules import same_name_constructor
+    n = 0
+    for cname in ("SessionInfo", "InfrastructureInfo"):
+        n += same_name_constructor(ck, rid, ck.repo.cls(cname, module="interface.py"))
+    ck.floor(rid, n, 15, "parameter-to-attribute stores of SessionInfo / InfrastructureInfo")
+
+
 def run(ck):
     ck.attempt(rule_order)
     ck.attempt(rule_escape)
@@ -544,3 +553,4 @@ def run(ck):
     # it names (shared with C13)
     from .c13 import rule_accessors
     ck.attempt(rule_accessors, rid="C05.R8")
+    ck.attempt(rule_holders)
